@@ -371,7 +371,9 @@ func (c *lexerCompiler) resolveClasses() {
 	}
 	tables, err := lex.Compile(rewritten, c.opts.ScanBytes, true /*allowBacktracking*/)
 	if err != nil {
-		// Pretend that these class rules do not exist in the grammar and keep going.
+		// Report the problem (e.g. two class rules accepting the same text), then pretend that
+		// these class rules do not exist in the grammar and keep going.
+		c.AddError(err)
 		return
 	}
 
